@@ -118,7 +118,16 @@ def child_roundtrip(text, recs, topts, tmpdir):
     from parglare.tables.persist import load_table, save_table, table_to_serializable
 
     try:
-        g = Grammar.from_string(text, recognizers=_recs(recs))
+        if isinstance(text, dict):  # {"file": path} (repository corpus) or {"files": {...}}
+            if "file" in text:
+                g = Grammar.from_file(text["file"], _no_check_recognizers=True)
+            else:
+                for name, t in text["files"].items():
+                    with open(os.path.join(tmpdir, name), "w") as f:
+                        f.write(t)
+                g = Grammar.from_file(os.path.join(tmpdir, "g.pg"))
+        else:
+            g = Grammar.from_string(text, recognizers=_recs(recs))
     except Exception as e:
         return {"skip": exc_outcome(e)}
     kw = dict(
